@@ -196,11 +196,15 @@ class CLeaf:
 UF_DECLS = "".join(f"(declare-fun uf_{n} (Real) Real)\n" for n in ("sin", "cos", "exp", "log", "sqrt", "asin", "acos", "atan", "sinh", "cosh"))
 
 
-def load_leaf(path, extra_decls=""):
+def load_leaf(path, extra_decls="", fp=False):
     txt = open(path).read()
     notes = [l[7:].strip() for l in txt.splitlines() if l.startswith("; note ")]
-    txt = _DTOK.sub(_dconst, txt)
-    asserts = z3.parse_smt2_string(UF_DECLS + extra_decls + txt)
+    if fp:
+        txt = _DTOK.sub(lambda m: f"((_ to_fp 11 53) #x{m.group(1)})", txt)
+        asserts = z3.parse_smt2_string(extra_decls + txt)
+    else:
+        txt = _DTOK.sub(_dconst, txt)
+        asserts = z3.parse_smt2_string(UF_DECLS + extra_decls + txt)
     outs, bouts, pcs = {}, {}, {}
     for a in asserts:
         assert z3.is_eq(a), a
@@ -222,7 +226,7 @@ def load_leaf(path, extra_decls=""):
     return CLeaf(path, "" if dec == "_" else dec, outs, [pcs[i] for i in sorted(pcs)], bouts, notes)
 
 
-def run_symbolic(exe, outdir, prefix, args=(), kmax=3, timeout=600, extra_decls=""):
+def run_symbolic(exe, outdir, prefix, args=(), kmax=3, timeout=600, extra_decls="", fp=False):
     """Run the symbolic driver; returns (leaves, n_cut)."""
     pfx = os.path.join(outdir, prefix)
     for f in glob.glob(pfx + ".*.smt2") + glob.glob(pfx + ".*.cut"):
@@ -233,7 +237,7 @@ def run_symbolic(exe, outdir, prefix, args=(), kmax=3, timeout=600, extra_decls=
         raise BuildError(f"symbolic driver failed rc={r.returncode}", (r.stdout + r.stderr)[-4000:])
     files = sorted(glob.glob(pfx + ".*.smt2"))
     cuts = len(glob.glob(pfx + ".*.cut"))
-    return [load_leaf(f, extra_decls) for f in files], cuts
+    return [load_leaf(f, extra_decls, fp=fp) for f in files], cuts
 
 
 def run_concrete(exe, outdir, inputs, args=(), timeout=120):
